@@ -64,8 +64,45 @@ theorem flagged_calls {s : Simp} (hs : SimpSound s) {o : Oracle} (ho : OracleSou
       (∀ r, ce.e.out ≠ .stuck r) ∧ ce.e.tag = .normal) :
     ∃ ce ∈ (runC s o cfg env codes this fuel).ends, Sat I ce.e.st.path ∧ ce.e.tag = .normal ∧
       (∃ h0, ce.e.out = .halt h0 ∧ haltWith h0 (ce.e.data.map (·.eval I)) = h) ∧
-      WRelM I (Modelled codes this) w w' (stoOf ce.stores) (evalLogs I ce.logs) (balSem I w ce.bal) := by
+      WRelM I (Modelled codes this) (wd w ce.created ce.nonce) w' (stoOf ce.stores) (evalLogs I ce.logs)
+        (balSem I w ce.bal) := by
   rcases C02.complete_calls hs ho cfg env codes this fuel p w hmem hdep hcodes hcb hz hnc I hI hbal hbound hsha hshaok f0 hR0 hthis hd0
+      n w' h hex
+    with ⟨ce, hm, hsat, hc⟩ | hb' | hd' | hf'
+  · obtain ⟨hns, htag⟩ := herr ce hm hsat
+    rcases hc with ⟨h0, ho', hw, _, hW⟩ | ⟨r, hr⟩ | ht
+    · exact ⟨ce, hm, hsat, htag, ⟨h0, ho', hw⟩, hW.1⟩
+    · exact absurd hr (hns r)
+    · exact absurd htag ht
+  · exact absurd hb hb'
+  · rw [hd] at hd'; cases hd'
+  · rw [hf] at hf'; cases hf'
+
+/-- **C10.flagged_calls_create_partial.** The same with CREATE followed; PARTIAL exactly as
+    `C01.sound_calls_create_partial` / `C02.complete_calls_create_partial` (balances layer off). -/
+theorem flagged_calls_create_partial {s : Simp} (hs : SimpSound s) {o : Oracle} (ho : OracleSound o) (cfg : Cfg) (env : Env)
+    (codes : List (Nat × List Nat)) (this : Nat) (fuel : Nat) (p : Evm.Params) (w : Evm.World)
+    (hmem : cfg.maxMem + 32 ≤ p.memLimit) (hdep : 1024 ≤ p.maxDepth)
+    (hcodes : ∀ a, w.codeOf a = codeOf codes a)
+    (hcb : ∀ a prog, codeOf codes a = some prog → ∀ b ∈ prog, b < 256)
+    (hz : ∀ a, ModelledC cfg codes this a → C01.ZeroStorage w a)
+    (hcr : cfg.create = true) (hcv : cfg.balances = false)
+    (hal : ∀ n, p.newAddress (w.created + n) = (cfg.allocBase + n) % 2 ^ 160)
+    (hbw : ∀ a, w.balanceOf a < 2 ^ 256)
+    (I : Interp) (hI : I.Std) (hsha : cfg.sha3 = true → ShaInterp I p cfg)
+    (hshaok : ∀ cs, VisitedC s o cfg codes (initC env codes this) cs → ShaOK I s cfg cs) (f0 : Evm.Frame)
+    (hR0 : R I env ((codeOf codes this).getD []) p initState f0) (hthis : f0.this = this) (hd0 : f0.depth = 0)
+    (n : Nat) (w' : Evm.World) (h : Evm.Halt) (hex : Evm.exec p n w f0 = some (w', h))
+    (hb : (runC s o cfg env codes this fuel).boundedLoops = [])
+    (hd : (runC s o cfg env codes this fuel).depthCut = false)
+    (hf : (runC s o cfg env codes this fuel).outOfFuel = false)
+    (herr : ∀ ce ∈ (runC s o cfg env codes this fuel).ends, Sat I ce.e.st.path →
+      (∀ r, ce.e.out ≠ .stuck r) ∧ ce.e.tag = .normal) :
+    ∃ ce ∈ (runC s o cfg env codes this fuel).ends, Sat I ce.e.st.path ∧ ce.e.tag = .normal ∧
+      (∃ h0, ce.e.out = .halt h0 ∧ haltWith h0 (ce.e.data.map (·.eval I)) = h) ∧
+      WRelM I (ModelledC cfg codes this) (wd w ce.created ce.nonce) w' (stoOf ce.stores) (evalLogs I ce.logs)
+        (balSem I w ce.bal) := by
+  rcases C02.complete_calls_create_partial hs ho cfg env codes this fuel p w hmem hdep hcodes hcb hz hcr hcv hal hbw I hI hsha hshaok f0 hR0 hthis hd0
       n w' h hex
     with ⟨ce, hm, hsat, hc⟩ | hb' | hd' | hf'
   · obtain ⟨hns, htag⟩ := herr ce hm hsat
@@ -239,8 +276,8 @@ example : ∃ e ∈ exRes.ends, Sat exI e.st.path ∧ e.tag = .normal ∧
 
 /-- `concrete_loops_uncut`: `PUSH1 1; PUSH1 4; JUMPI; STOP; JUMPDEST; STOP` at the JUMPI with `--loop 0` -/
 example : (step foldSimp exOracle { loop := 0 } exEnv [0x60, 1, 0x60, 5, 0x57, 0x00, 0x5b, 0x00]
-      ⟨4, [.bv 256 (.con 5), .bv 256 (.con 1)], [], [], [], [], [], [], [], [], 0⟩).bounded = [] :=
-  (concrete_loops_uncut (cfg := { loop := 0 }) (st := ⟨4, [.bv 256 (.con 5), .bv 256 (.con 1)], [], [], [], [], [], [], [], [], 0⟩)
+      ⟨4, [.bv 256 (.con 5), .bv 256 (.con 1)], [], [], [], [], [], [], []⟩).bounded = [] :=
+  (concrete_loops_uncut (cfg := { loop := 0 }) (st := ⟨4, [.bv 256 (.con 5), .bv 256 (.con 1)], [], [], [], [], [], [], []⟩)
     (sz := 256) (target := 5) rfl rfl rfl true (Or.inr ⟨256, 1, rfl, rfl⟩)).1
 
 end HalmosVerif.Props.C10
